@@ -577,14 +577,19 @@ impl Word {
             }
         }
 
+        self.americanise(buffer)
+    }
+
+    /// A word typed in Americanist notation is printed in it
+    fn americanise(&self, text: String) -> String {
         if self.americanist {
-            buffer.replace("t͡s", "¢")
-                  .replace("t͡ɬ",  "ƛ")
-                  .replace("d͡ɮ", "λ")
-                  .replace("ɬ",  "ł")
-                  .replace("ɲ",  "ñ")
+            text.replace("t͡s", "¢")
+                .replace("t͡ɬ",  "ƛ")
+                .replace("d͡ɮ", "λ")
+                .replace("ɬ",  "ł")
+                .replace("ɲ",  "ñ")
         } else {
-            buffer
+            text
         }
     }
 
@@ -799,10 +804,10 @@ impl Word {
                                     if *plus {
                                         if !plus_match_len {
                                             for ind in back_pos..j {
-                                                buffer.push_str(&syll.segments[ind].get_nearest_grapheme());
+                                                buffer.push_str(&self.americanise(syll.segments[ind].get_nearest_grapheme()));
                                             }
                                         } else {
-                                            buffer.push_str(&syll.segments[j-1].get_nearest_grapheme());
+                                            buffer.push_str(&self.americanise(syll.segments[j-1].get_nearest_grapheme()));
                                         }
                                     } 
                                     buffer.push_str(repl);
@@ -817,7 +822,7 @@ impl Word {
 
                 }
 
-                buffer.push_str(&syll.segments[j].get_as_grapheme().unwrap_or("�".to_owned()));
+                buffer.push_str(&self.americanise(syll.segments[j].get_as_grapheme().unwrap_or("�".to_owned())));
                 j += 1;
             }
 
